@@ -67,3 +67,33 @@ func init() {
 		return 0
 	}
 }
+
+func init() {
+	debugCmds["emitted"] = func(args []string) int {
+		w, err := LoadWorld()
+		if err != nil {
+			fmt.Println(err)
+			return 1
+		}
+		if err := w.LoadEmitted(); err != nil {
+			fmt.Println("emitted:", err)
+			return 1
+		}
+		fmt.Println("emitted package at", w.EmittedDir)
+		n := 0
+		for _, k := range w.sortedFuncNames() {
+			if w.EmittedPaths[w.Funcs[k].Obj.Pkg().Path()] {
+				n++
+				if len(args) > 0 {
+					fmt.Println(" ", k)
+				}
+			}
+		}
+		fmt.Println(n, "functions")
+		if len(args) > 1 {
+			// keep a copy for inspection
+			runCmd("/", nil, "cp", "-r", w.EmittedDir, args[1])
+		}
+		return 0
+	}
+}
